@@ -201,35 +201,77 @@ Proof. intros HI H1 H2. apply logged_sel_open; [apply reach_wf; exact HI|exact H
 End Thm.
 
 (* ------------------------------------------------------------------ *)
-(* "soft deletion requires read permission": the code asks for R only when D is missing *)
+(* "soft deletion requires read permission": the hard flag is decided first (asked for AND D
+   in the effective mode); every accepted deletion that is not hard-effective - asked soft, or
+   silently degraded for lack of D - was made by a requester with R, whatever the faults *)
 
-Definition soft_needs_read_statement : Prop :=
-  forall f s c sid u req d,
-    h_out (del_msg del_ranges_i f s c 0 sid u req false) = [(sid, Ctrl 200 [(P_del, d)])] ->
-    is_reader (user_mode c u) = true.
-
-Definition wit_cache : cache :=
-  mkCache 1 0 1%N 47%N 0%N [(1%N, mkPud 255 255 0 0 0 1); (2%N, mkPud 69 69 0 0 0 1)] [(1%N, (1%N, false)); (2%N, (2%N, false))].
-Definition wit_store : store :=
-  mkStore true 1 0 1%N 47%N 0%N [mkSub 1 255 255 0 0 0 false; mkSub 2 69 69 0 0 0 false] [mkMsg 1 1%N 7%N 0] [] [(1%N, 47%N); (2%N, 47%N)].
-
-(* user 2 has JWD (no R): his soft delete of message 1 is accepted *)
-Lemma soft_needs_read_refuted : ~ soft_needs_read_statement.
-Proof.
-  intros H. specialize (H NoFault wit_store wit_cache 2%N 2%N [(1, 0)] 1).
-  assert (is_reader (user_mode wit_cache 2%N) = true) as R by (apply H; vm_compute; reflexivity).
-  vm_compute in R. discriminate.
-Qed.
-
-(* for a requester without D the statement holds, whatever the faults *)
-Lemma soft_needs_read_partial f s c sid u req hard d :
-  is_deleter (user_mode c u) = false ->
+Lemma soft_needs_read f s c sid u req hard d :
+  hard && is_deleter (user_mode c u) = false ->
   h_out (del_msg del_ranges_i f s c 0 sid u req hard) = [(sid, Ctrl 200 [(P_del, d)])] ->
   is_reader (user_mode c u) = true.
 Proof.
   intros D. unfold del_msg. rewrite D. cbn [negb andb]. destruct (is_reader (user_mode c u)); [reflexivity|].
   cbn. intros H. inv H.
 Qed.
+
+(* the same through [step]: an attached session, any state, any faults *)
+Lemma soft_needs_read_step sm f s c n0 sid req hard d : attached c sid = true ->
+  hard && is_deleter (user_mode c (sess_uid sm sid)) = false ->
+  snd (step_i sm f (mkState s (Some c) n0) (ODelMsg sid req hard)) = [(sid, Ctrl 200 [(P_del, d)])] ->
+  is_reader (user_mode c (sess_uid sm sid)) = true.
+Proof.
+  intros AT D. rewrite (step_del_msg sm f s c n0 sid req hard AT). cbn zeta. cbn [snd]. apply soft_needs_read. exact D.
+Qed.
+
+(* the gate as a function of the request flag and the effective mode: true = refused *)
+Definition del_gate (hard0 : bool) (mode : N) : bool := negb (hard0 && is_deleter mode) && negb (is_reader mode).
+(* the gate of the code BEFORE the repair 2721db4: R was asked for only when D was missing *)
+Definition del_gate_unrepaired (hard0 : bool) (mode : N) : bool := negb (is_deleter mode) && negb (is_reader mode).
+
+(* the handler refuses (403, nothing changed) exactly when [del_gate] says so, whatever the faults *)
+Lemma del_msg_gate f s c n sid u req hard :
+  (del_gate hard (user_mode c u) = true -> del_msg del_ranges_i f s c n sid u req hard = mkH s c n [(sid, Ctrl 403 [])]) /\
+  (h_out (del_msg del_ranges_i f s c n sid u req hard) = [(sid, Ctrl 403 [])] -> del_gate hard (user_mode c u) = true).
+Proof.
+  unfold del_msg, del_gate. destruct (negb (hard && is_deleter (user_mode c u)) && negb (is_reader (user_mode c u))).
+  - split; reflexivity.
+  - split; [discriminate|]. repeat break_match; cbn [h_out]; intros H; inv H.
+Qed.
+
+Definition gate_soft_needs_read_statement (gate : bool -> N -> bool) : Prop :=
+  forall hard0 mode, hard0 && is_deleter mode = false -> gate hard0 mode = false -> is_reader mode = true.
+
+Lemma del_gate_soft_needs_read : gate_soft_needs_read_statement del_gate.
+Proof. intros hard0 mode D. unfold del_gate. rewrite D. cbn [negb andb]. destruct (is_reader mode); [reflexivity|discriminate]. Qed.
+
+(* JWD (no R), soft request: let through by the old gate *)
+Lemma del_gate_unrepaired_refuted : ~ gate_soft_needs_read_statement del_gate_unrepaired.
+Proof. intros H. specialize (H false 69%N eq_refl eq_refl). vm_compute in H. discriminate. Qed.
+
+(* the old gate did hold the line for every requester without D *)
+Lemma del_gate_unrepaired_partial hard0 mode :
+  is_deleter mode = false -> del_gate_unrepaired hard0 mode = false -> is_reader mode = true.
+Proof. intros D. unfold del_gate_unrepaired. rewrite D. cbn [negb andb]. destruct (is_reader mode); [reflexivity|discriminate]. Qed.
+
+(* the two gates differ exactly for D without R and no (effective) hard flag *)
+Lemma del_gate_differs hard0 mode :
+  del_gate hard0 mode <> del_gate_unrepaired hard0 mode <-> (is_deleter mode = true /\ is_reader mode = false /\ hard0 = false).
+Proof.
+  unfold del_gate, del_gate_unrepaired. destruct hard0, (is_deleter mode), (is_reader mode); cbn; intuition congruence.
+Qed.
+
+Definition wit_cache : cache :=
+  mkCache 1 0 1%N 47%N 0%N [(1%N, mkPud 255 255 0 0 0 1); (2%N, mkPud 69 69 0 0 0 1)] [(1%N, (1%N, false)); (2%N, (2%N, false))].
+Definition wit_store : store :=
+  mkStore true 1 0 1%N 47%N 0%N [mkSub 1 255 255 0 0 0 false; mkSub 2 69 69 0 0 0 false] [mkMsg 1 1%N 7%N 0] [] [(1%N, 47%N); (2%N, 47%N)].
+
+(* non-vacuity: user 2 has JWD (no R): his soft delete of message 1 is refused and his hard one
+   accepted; user 1 (everything) soft-deletes *)
+Lemma soft_needs_read_example :
+  h_out (del_msg del_ranges_i NoFault wit_store wit_cache 0 2%N 2%N [(1, 0)] false) = [(2%N, Ctrl 403 [])] /\
+  h_out (del_msg del_ranges_i NoFault wit_store wit_cache 0 2%N 2%N [(1, 0)] true) = [(2%N, Ctrl 200 [(P_del, 1)])] /\
+  h_out (del_msg del_ranges_i NoFault wit_store wit_cache 0 1%N 1%N [(1, 0)] false) = [(1%N, Ctrl 200 [(P_del, 1)])].
+Proof. repeat split; vm_compute; reflexivity. Qed.
 
 (* ------------------------------------------------------------------ *)
 (* the refinement does not survive a store fault in the middle of a delete request: the
